@@ -232,7 +232,23 @@ fn cs_valid(s: Sc, rng: &mut Rng) -> Doc {
             _ => format!("\t{}", pieces[i]),
         };
     }
-    let mut text = pieces.join(",");
+    // the comma is the only separator: ';', '|', ':', '/', blank and tab between two pieces make one
+    // piece of them (a string with that character in it, or something that is not a number), and one
+    // of them alone is a piece
+    let odd = if rng.chance(1, 6) { Some((rng.below(pieces.len().max(1)), *rng.pick(&[";", ";", "|", ":", "/", " ", "\t"]))) } else { None };
+    let mut text = String::new();
+    for (i, p) in pieces.iter().enumerate() {
+        if i > 0 {
+            text.push_str(match odd {
+                Some((at, sep)) if at + 1 == i => sep,
+                _ => ",",
+            });
+        }
+        text.push_str(p);
+    }
+    if let (true, Some((_, sep))) = (pieces.len() < 2, odd) {
+        text.push_str(sep);
+    }
     // empty pieces are legal and dropped
     if rng.chance(1, 5) {
         text.push(',');
@@ -450,9 +466,18 @@ fn other_kind(doc: &Doc, rng: &mut Rng) -> Doc {
         let c = match rng.below(8) {
             0 => Doc::Null,
             1 => Doc::Bool(true),
-            2 => Doc::Int(if rng.chance(1, 4) { u64::MAX - rng.below(3) as u64 } else { rng.below(10) as u64 }),
+            2 => Doc::Int(match rng.below(8) {
+                0 | 1 => u64::MAX - rng.below(3) as u64,
+                // the edges of what narrower targets and `char` can hold: a wrong kind stays a wrong
+                // kind whatever the number (65 is not 'A', 0xD800 is not a character)
+                2 => *rng.pick(&[65u64, 255, 256, 65535, 65536, u32::MAX as u64, u32::MAX as u64 + 1]),
+                3 => *rng.pick(&[0xD7FFu64, 0xD800, 0xDBFF, 0xDFFF, 0xE000, 0x10FFFF, 0x110000]),
+                _ => rng.below(10) as u64,
+            }),
             3 => Doc::Neg(if rng.chance(1, 4) { i64::MIN } else { -3 }),
-            4 => Doc::Float(2.5),
+            // fractional, integral (a float is a float: 3.0 is not the integer 3), and integral
+            // beyond what any integer of the payload can hold
+            4 => Doc::Float(*rng.pick(&[2.5, 2.5, 2.5, 3.0, -7.0, 9007199254740992.0, 18446744073709551616.0, 1e20, -1e30])),
             5 => Doc::Str(
                 rng.pick(&[
                     "oops",
@@ -474,13 +499,18 @@ fn other_kind(doc: &Doc, rng: &mut Rng) -> Doc {
                     Doc::Seq(vec![Doc::Int(1), Doc::Str("two".into())])
                 }
             }
-            _ => {
-                if rng.chance(1, 3) {
-                    Doc::Map(vec![])
-                } else {
-                    Doc::Map(vec![("k".to_string(), Doc::Null)])
+            _ => match rng.below(6) {
+                0 | 1 => Doc::Map(vec![]),
+                // an object whose keys look like positions (how a query string spells a list) is an
+                // object: dense, with a gap, out of numeric order, and long enough for a sorted map
+                // to yield "10" before "2"
+                2 => {
+                    let keys: &[&str] = *rng.pick(&[&["0"][..], &["0", "1", "2"], &["0", "2"], &["1", "0"], &["0", "5", "1"]]);
+                    Doc::Map(keys.iter().map(|k| (k.to_string(), Doc::Int(7))).collect())
                 }
-            }
+                3 if rng.chance(1, 3) => Doc::Map((0..12u64).map(|i| (i.to_string(), Doc::Int(i))).collect()),
+                _ => Doc::Map(vec![("k".to_string(), Doc::Null)]),
+            },
         };
         if c.kind() != doc.kind() {
             return c;
